@@ -1,14 +1,15 @@
 #!/bin/bash
 # seed_batch.sh <worktree-root> <name-prefix> <suffix> ID...  : evaluate seeded changes (3 at a time), print one line each
 root=$1; prefix=$2; suffix=$3; shift 3
-printf "%s\n" "$@" | xargs -P 3 -I{} sh -c "/venv/bin/python /verif/tools/seed_eval.py $prefix-{} {} $root/{} > $root/eval${suffix}_{}.log 2>&1"
+# an ID may carry a trailing letter (C04a, C04b: two seeds for one property)
+printf "%s\n" "$@" | xargs -P 3 -I{} sh -c "/venv/bin/python /verif/tools/seed_eval.py $prefix-{} \$(echo {} | sed 's/[a-z]\$//') $root/{} > $root/eval${suffix}_{}.log 2>&1"
 for c in "$@"; do
   /venv/bin/python - "$root/eval${suffix}_$c.log" "$c" <<'PY'
 import sys, json, re
 txt = open(sys.argv[1]).read()
 try:
     m = json.loads(txt[txt.index("{"):])
-    ch = m.get("checks", {}).get(sys.argv[2], {})
+    ch = m.get("checks", {}).get(sys.argv[2].rstrip("abcdefgh"), {})
     print(sys.argv[2], "confirmed" if m.get("confirmed") else "NOT-CONFIRMED(demo %s/%s tests-missing %s)" % (m.get("demo_exit_clean"), m.get("demo_exit_patched"), m.get("tests_stable_pass_missing")),
           "caught" if m.get("caught_by") else "MISSED exit=%s" % ch.get("exit"), (ch.get("detail") or ch.get("tail") or [""])[0][:150])
 except Exception as e:
